@@ -13,14 +13,15 @@ CONSTANTS Wide,        \* FALSE: enumerate the pools; TRUE: draw parameters at r
           MaxCells,    \* cells outside the shared-formula block
           UseBlock,    \* BOOLEAN: may a shared-formula block be added
           MaxAttrs,    \* how many attribute channels get an entity-carrying value
-          Variants,    \* "all" | "few" | "inl": pool of value encodings
+          Variants,    \* "all" | "few" | "inl" | "pos" | "sst" (shared-string cells only): pool of value encodings ("pos": free layout, see AddCellFree)
           EmitReplay
 
 NoIs == [rich |-> FALSE, runs |-> <<>>]
 Plain(x) == [rich |-> FALSE, runs |-> <<x>>]
 Rich(rs) == [rich |-> TRUE, runs |-> rs]
 V(t, hv, v, vb, vi, his, isr, s) ==
-  [r |-> 0, c |-> 0, t |-> t, hv |-> hv, v |-> v, vb |-> vb, vi |-> vi, his |-> his, isr |-> isr, s |-> s, f |-> F0]
+  [r |-> 0, c |-> 0, t |-> t, hv |-> hv, v |-> v, vb |-> vb, vi |-> vi, his |-> his, isr |-> isr, s |-> s, f |-> F0,
+   nr |-> FALSE, rf |-> FALSE, rra |-> 0, rpre |-> <<>>]        \* nr: written without r= (rf, rra, rpre: see Decode!RawPos)
 Num(t, v, vb, s) == V(t, TRUE, v, vb, -1, FALSE, NoIs, s)
 Txt(t, v)        == V(t, TRUE, v, "", -1, FALSE, NoIs, -1)
 Inl(item)        == V("inlineStr", FALSE, "", "", -1, TRUE, item, -1)
@@ -43,17 +44,30 @@ ValuesAll ==
     WithF(Num("", "3", B3, -1), "normal", "1+2"), WithF(Txt("str", "ab"), "normal", "\"a\"&\"b\""),
     WithF(Txt("b", "1"), "normal", "1=1"), WithF(Txt("e", "#N/A"), "normal", "NA()"),
     WithF(V("", FALSE, "", "", -1, FALSE, NoIs, -1), "normal", "A1"), WithF(Num("", "7", B7, -1), "array", "SUM(A1:B1*2)"),
-    WithF(Txt("str", "x<y"), "normal", "IF(A1<B1,\"x<y\",\"&\")") }
+    WithF(Txt("str", "x<y"), "normal", "IF(A1<B1,\"x<y\",\"&\")"),
+    (* ST_Xstring: a surrogate pair as two escapes, a lone surrogate, lower-case digits, _x005F_ protecting an escape,
+       escapes next to each other and next to "_", incomplete escapes - in <v> of t="str", inline and rich inline strings *)
+    Txt("str", "_xD83D__xDE00_"), Txt("str", "a_xD83D_b"), Txt("str", "_x000a__x000D_"), Txt("str", "_x005F_x0041_"),
+    Txt("str", "_x0041__x0042__"), Txt("str", "_x004"), Txt("str", "_x00G1__x0041"),
+    Inl(Plain("_xD83D__xDE00_")), Inl(Plain("_x005f_x0041__x0042_")), Inl(Plain("__x0041__x004")), Inl(Plain("a_xDE00_")),
+    Inl(Rich(<<"r_xD83D__xDE00_", "_x005F_x0041_">>)), Inl(Rich(<<"_xD83D_", "_xDE00_">>)),
+    (* phonetic runs are not part of the text *)
+    Inl([rich |-> FALSE, runs |-> <<"base">>, ph |-> "kana"]), Inl([rich |-> TRUE, runs |-> <<"ba", "se">>, ph |-> "kana"]) }
+(* positions: value cells and self-closing (blank) cells, with or without a style *)
+ValuesPos == { Num("n", "1.5", B15, -1), V("", FALSE, "", "", -1, FALSE, NoIs, 1), V("", FALSE, "", "", -1, FALSE, NoIs, -1) }
 (* runs of consecutive inline strings: one whose <t> carries xml:space="preserve" (outer blanks) followed by others that
    do not, plain and rich, with a <v> cell and a shared string in between; positions are consecutive in document order,
    in the same row and across rows *)
 ValuesInl == { Inl(Plain(" pad ")), Inl(Plain("hello")), Inl(Plain("b")), Inl(Rich(<<"ab ", "cd">>)), Inl(Rich(<<"x", "y">>)),
                Txt("str", "text res") }
 ValuesFew == { Num("n", "1.5", B15, 1), Txt("str", "text res"), Inl(Plain("hello")), Inl(Plain("123")), Txt("b", "1") }
-Values == IF Variants = "all" THEN ValuesAll ELSE IF Variants = "inl" THEN ValuesInl ELSE ValuesFew
+Values == IF Variants = "all" THEN ValuesAll ELSE IF Variants = "inl" THEN ValuesInl ELSE IF Variants = "pos" THEN ValuesPos ELSE IF Variants = "sst" THEN {} ELSE ValuesFew
 
 SstPool == { Plain("plain"), Plain("a&b<c>"), Plain("  padded  "), Rich(<<"run1 ", " run2">>), Plain("123"), Plain(""),
-             Plain("s_x000A_t"), Rich(<<"a&b", "<c>">>) }
+             Plain("s_x000A_t"), Rich(<<"a&b", "<c>">>),
+             Plain("_xD83D__xDE00_"), Rich(<<"a_x0041_", "_xd83d__xde00_">>), Plain("_x005F_x0041__"), Plain("a_xDE00_"),
+             [rich |-> FALSE, runs |-> <<"base">>, ph |-> "kana"],
+             [rich |-> FALSE, runs |-> <<>>] }          \* the empty item, written <si/>
 
 Xfs == << [id |-> 0, custom |-> FALSE, code |-> ""], [id |-> 14, custom |-> FALSE, code |-> ""],
           [id |-> 164, custom |-> TRUE, code |-> "0.0\" <u>\""], [id |-> 2, custom |-> FALSE, code |-> ""] >>
@@ -114,7 +128,8 @@ RefOf(a, offs) ==    \* the ref= attribute: bounding rectangle of the block
 
 (* ---- the state machine ------------------------------------------------------------ *)
 Pick(S) == IF Wide THEN {RandomElement(S)} ELSE S
-EmptyFile == [cells |-> {}, sst |-> <<>>, xfs |-> Xfs, opts |-> OptDefault, attrs |-> AttrDefault]
+EmptyFile == [cells |-> {}, sst |-> <<>>, xfs |-> Xfs, opts |-> OptDefault, attrs |-> AttrDefault, rownr |-> {}]
+FreeLayout == Variants = "pos" \/ Wide
 NToggled(f) == Cardinality({i \in DOMAIN OptToggles : f.opts[OptToggles[i][1]] # OptDefault[OptToggles[i][1]]})
 LastToggled(f) == LET S == {i \in DOMAIN OptToggles : f.opts[OptToggles[i][1]] # OptDefault[OptToggles[i][1]]}
                   IN IF S = {} THEN 0 ELSE CHOOSE i \in S : \A j \in S : j <= i
@@ -136,7 +151,19 @@ SetXmlSpace == /\ phase = "gen" /\ Fresh(file) /\ file.sst = <<>> /\ NToggled(fi
 AddSstItem == /\ phase = "gen" /\ Fresh(file) /\ Len(file.sst) < MaxSst
               /\ \E it \in Pick(SstPool) : file' = PostAddSst(file, it)
               /\ UNCHANGED phase
-AddCell == /\ phase = "gen" /\ file.attrs = AttrDefault /\ ~HasBlock(file) /\ Cardinality(PlainCells(file)) < MaxCells
+(* free layout: the next cell goes right of the last one, after a column gap, to the start of the next row, or after a
+   row gap; where document order implies that position the cell may be written without r= and a new row without r= *)
+NextPositions(f) == IF f.cells = {} THEN {<<1, 1>>, <<1, 2>>, <<2, 1>>, <<3, 2>>}
+                    ELSE LET r == LastRowOf(f)  c == LastColOf(f, LastRowOf(f)) IN {<<r, c + 1>>, <<r, c + 2>>, <<r + 1, 1>>, <<r + 2, 2>>}
+AddCellFree == /\ phase = "gen" /\ FreeLayout /\ file.attrs = AttrDefault /\ ~HasBlock(file) /\ Cardinality(PlainCells(file)) < MaxCells
+               /\ \E p \in Pick(NextPositions(file)), nr \in Pick(BOOLEAN), rnr \in Pick(BOOLEAN) :
+                  \E x \in Pick(Values \cup {Sst(i - 1) : i \in DOMAIN file.sst}) :
+                     /\ nr => CanOmitCellR(file, p[1], p[2])
+                     /\ rnr => CanOmitRowR(file, p[1])
+                     /\ ~file.opts.rowr => (nr /\ (RowCells(file, p[1]) = {} <=> rnr))     \* no r= anywhere: all implied
+                     /\ file' = PostAddCellOpt(file, x, p[1], p[2], nr, rnr)
+               /\ UNCHANGED phase
+AddCell == /\ phase = "gen" /\ ~FreeLayout /\ file.attrs = AttrDefault /\ ~HasBlock(file) /\ Cardinality(PlainCells(file)) < MaxCells
            /\ LET p == Positions(file)[Cardinality(PlainCells(file)) + 1] IN
               \E x \in Pick(Values \cup {Sst(i - 1) : i \in DOMAIN file.sst}
                                    \cup {WithF(Sst(i - 1), "normal", "\"s\"") : i \in DOMAIN file.sst}) :
@@ -154,7 +181,7 @@ AddEntityAttr == /\ phase = "gen" /\ NAttrs(file) < MaxAttrs
 Finish == phase = "gen" /\ phase' = "done" /\ UNCHANGED file
 
 MCInit == file = EmptyFile /\ phase = "gen"
-MCNext == SetOpt \/ SetXmlSpace \/ AddSstItem \/ AddCell \/ AddSharedBlock \/ AddEntityAttr \/ Finish
+MCNext == SetOpt \/ SetXmlSpace \/ AddSstItem \/ AddCell \/ AddCellFree \/ AddSharedBlock \/ AddEntityAttr \/ Finish
 MCSpec == MCInit /\ [][MCNext]_gvars
 
 (* ---- the file model for pydec/build_xlsx.py --------------------------------------- *)
@@ -165,8 +192,10 @@ Links(f) == (IF f.attrs.ext = "" THEN << >> ELSE << Link(1, 1, TRUE, "http://h.e
             \o (IF f.attrs.both = "" THEN << >>
                 ELSE << Link(2, 1, TRUE, "https://example.com/docs/page.html?x=1&y=2", TRUE, f.attrs.both, f.attrs.tip),
                         Link(3, 3, TRUE, "https://example.com/other?" \o f.attrs.both, TRUE, "top", "") >>)
+RECURSIVE SeqOfSet(_)
+SeqOfSet(S) == IF S = {} THEN <<>> ELSE LET x == CHOOSE y \in S : \A z \in S : y <= z IN <<x>> \o SeqOfSet(S \ {x})
 Model(f) ==
-  [sheets |-> << [name |-> f.attrs.sheet, cells |-> DocOrder(f), links |-> Links(f),
+  [sheets |-> << [name |-> f.attrs.sheet, cells |-> DocOrder(f), rownr |-> SeqOfSet(f.rownr), links |-> Links(f),
                   tcols |-> IF f.attrs.tcol = "" THEN <<>> ELSE <<f.attrs.tcol, "plain">>] >>,
    sst |-> f.sst, xfs |-> f.xfs,
    names |-> IF f.attrs.dname = "" THEN <<>> ELSE <<[name |-> f.attrs.dname, text |-> "$A$1", local |-> -1]>>,
@@ -174,5 +203,33 @@ Model(f) ==
 (* every generated hyperlink has a target by the rule of Decode.tla, and is a place in the workbook iff it has no r:id *)
 LinksOk == \A i \in DOMAIN Links(file) : LET h == Links(file)[i] IN
               ValidLink(h) /\ LinkUrl(h) # "" /\ (LinkIsPlace(h) <=> (h.hasloc /\ ~h.ext)) /\ (LinkPlaceDecided(h) \/ h.ext)
+(* ---- ST_Xstring: the decoding operator on the cases the palette exercises ------------- *)
+Lower == <<"a", "b", "c", "d", "e", "f", "g", "h", "i", "j", "k", "l", "m", "n", "o", "p", "q", "r", "s", "t", "u", "v", "w", "x", "y", "z">>
+Digs  == <<"0", "1", "2", "3", "4", "5", "6", "7", "8", "9">>
+IndexIn(seq, ch) == CHOOSE i \in DOMAIN seq : seq[i] = ch
+Code(ch) == IF ch = "_" THEN 95
+            ELSE IF \E i \in DOMAIN Digs : Digs[i] = ch THEN 47 + IndexIn(Digs, ch)
+            ELSE IF \E i \in DOMAIN Cd!Letters : Cd!Letters[i] = ch THEN 64 + IndexIn(Cd!Letters, ch)
+            ELSE 96 + IndexIn(Lower, ch)
+U(chars) == [i \in DOMAIN chars |-> Code(chars[i])]
+XLemmas ==
+  /\ XDecode(U(<<"_", "x", "D", "8", "3", "D", "_", "_", "x", "D", "E", "0", "0", "_">>)) = <<55357, 56832>>      \* _xD83D__xDE00_
+  /\ XDecode(U(<<"_", "x", "0", "0", "0", "a", "_">>)) = <<10>>      \* _x000a_
+  /\ XDecode(U(<<"_", "x", "0", "0", "0", "A", "_">>)) = <<10>>      \* _x000A_
+  /\ XDecode(U(<<"_", "x", "0", "0", "5", "F", "_", "x", "0", "0", "4", "1", "_">>)) = <<95, 120, 48, 48, 52, 49, 95>>      \* _x005F_x0041_
+  /\ XDecode(U(<<"_", "x", "0", "0", "4", "1", "_", "_", "x", "0", "0", "4", "2", "_">>)) = <<65, 66>>      \* _x0041__x0042_
+  /\ XDecode(U(<<"_", "x", "0", "0", "4", "1", "_", "_">>)) = <<65, 95>>      \* _x0041__
+  /\ XDecode(U(<<"_", "x", "0", "0", "4">>)) = <<95, 120, 48, 48, 52>>      \* _x004
+  /\ XDecode(U(<<"_", "x", "0", "0", "G", "1", "_">>)) = <<95, 120, 48, 48, 71, 49, 95>>      \* _x00G1_
+  /\ XDecode(U(<<"_", "x", "0", "0", "4", "1">>)) = <<95, 120, 48, 48, 52, 49>>      \* _x0041
+  /\ XDecode(U(<<"_", "_", "x", "0", "0", "4", "1", "_">>)) = <<95, 65>>      \* __x0041_
+  /\ XDecode(U(<<"_", "x", "_", "x", "0", "0", "4", "1", "_">>)) = <<95, 120, 65>>      \* _x_x0041_
+  /\ XDecode(U(<<"a", "b", "_">>)) = <<97, 98, 95>>      \* ab_
+  /\ XDecode(U(<<"_", "x", "0", "0", "5", "f", "_", "_", "x", "0", "0", "5", "F", "_">>)) = <<95, 95>>      \* _x005f__x005F_
+  /\ WellFormed16(XDecode(U(<<"_", "x", "D", "8", "3", "D", "_", "_", "x", "D", "E", "0", "0", "_">>))) /\ WellFormed16(U(<<"p", "l", "a", "i", "n">>))
+  /\ ~WellFormed16(XDecode(U(<<"a", "_", "x", "D", "8", "3", "D", "_", "b">>)))      \* a_xD83D_b: a lone surrogate
+  /\ ~WellFormed16(XDecode(U(<<"_", "x", "D", "E", "0", "0", "_">>)))      \* _xDE00_: a lone surrogate
+  /\ ~WellFormed16(XDecode(U(<<"_", "x", "D", "E", "0", "0", "_", "_", "x", "D", "8", "3", "D", "_">>)))      \* _xDE00__xD83D_: a lone surrogate
+  /\ ~WellFormed16(XDecode(U(<<"_", "x", "D", "8", "3", "D", "_">>)))      \* _xD83D_: a lone surrogate
 Emit == (EmitReplay /\ phase = "done") => PrintT(<<"REPLAY", ToJson(Model(file))>>)
 =============================================================================
